@@ -223,6 +223,18 @@ def run(case):
         ok, yr = call(out, "lowpass", lambda: cryomap.lowpass(np.roll(x, sh, axis=(0, 1, 2)), fourier_pixels=r, gaussian=s))
         if ok:
             out.check(np.abs(yr - np.roll(y, sh, axis=(0, 1, 2))).max() < 1e-9, "lowpass:not_shift_invariant", f"shift {sh}")
+    # the same two relations for the high-pass and (below) the band-pass
+    if case["content"] == "noise" and ok:
+        sh = tuple(case["shift"])
+        a, b = case["ab"]
+        x2 = np.random.default_rng(case["seed"] + 1).normal(0, 1, shape)
+        okh2, h2 = call(out, "highpass", lambda: cryomap.highpass(x2, fourier_pixels=r, gaussian=s))
+        okhl, hl = call(out, "highpass", lambda: cryomap.highpass(a * x + b * x2, fourier_pixels=r, gaussian=s))
+        if okh2 and okhl:
+            out.check(np.abs(hl - (a * h + b * h2)).max() < 1e-9 * (1 + abs(a) + abs(b)) * 10, "highpass:not_linear", "")
+        okhr, hr = call(out, "highpass", lambda: cryomap.highpass(np.roll(x, sh, axis=(0, 1, 2)), fourier_pixels=r, gaussian=s))
+        if okhr:
+            out.check(np.abs(hr - np.roll(h, sh, axis=(0, 1, 2))).max() < 1e-9, "highpass:not_shift_invariant", f"shift {sh}")
     # bandpass == lowpass(lp) - lowpass(hp)
     hp, hs = case["hp"], float(case["hp_sigma"])
     if hp >= 1 and r > hp:
@@ -232,6 +244,14 @@ def run(case):
             out.label("bandpass")
             e = np.abs(bp - (y - yh)).max()
             out.check(e < 1e-9 * max(1.0, np.abs(x).max()), "bandpass:not_difference_of_lowpasses", f"{e} lp={r}/{s} hp={hp}/{hs}")
+            if case["content"] == "noise":
+                shb = tuple(case["shift"])
+                okbr, bpr = call(out, "bandpass", lambda: cryomap.bandpass(np.roll(x, shb, axis=(0, 1, 2)), lp_fourier_pixels=r, hp_fourier_pixels=hp, lp_gaussian=s, hp_gaussian=hs))
+                if okbr:
+                    out.check(np.abs(bpr - np.roll(bp, shb, axis=(0, 1, 2))).max() < 1e-9, "bandpass:not_shift_invariant", "")
+                okb2, bp2 = call(out, "bandpass", lambda: cryomap.bandpass(2.5 * x, lp_fourier_pixels=r, hp_fourier_pixels=hp, lp_gaussian=s, hp_gaussian=hs))
+                if okb2:
+                    out.check(np.abs(bp2 - 2.5 * bp).max() < 1e-9 * 10, "bandpass:not_linear", "")
             if s == 0 and hs == 0:
                 B = np.fft.fftn(bp)
                 band = ((k2 <= r * r) & (k2 > hp * hp)).astype(float)
